@@ -74,6 +74,50 @@ type Flow struct {
 	Name string
 
 	blockOf map[ast.Node]*cfg.Block
+
+	// a restricted view: edges for which infeasible reports true are never taken,
+	// blocks that become unreachable are treated as dead; edgeTag adds facts on
+	// the edges whose condition the restriction decided.
+	infeasible func(b *cfg.Block, i int, cond ast.Expr) bool
+	edgeTag    func(b *cfg.Block, i int, cond ast.Expr) []string
+	reach      map[*cfg.Block]bool
+}
+
+// live reports whether b can execute in this (possibly restricted) view.
+func (f *Flow) live(b *cfg.Block) bool {
+	if !b.Live {
+		return false
+	}
+	if f.infeasible == nil {
+		return true
+	}
+	if f.reach == nil {
+		f.reach = map[*cfg.Block]bool{}
+		if len(f.G.Blocks) > 0 {
+			work := []*cfg.Block{f.G.Blocks[0]}
+			f.reach[f.G.Blocks[0]] = true
+			for len(work) > 0 {
+				x := work[len(work)-1]
+				work = work[:len(work)-1]
+				cond := branchCond(x)
+				for i, sc := range x.Succs {
+					if f.infeasible(x, i, cond) || f.reach[sc] || !sc.Live {
+						continue
+					}
+					f.reach[sc] = true
+					work = append(work, sc)
+				}
+			}
+		}
+	}
+	return f.reach[b]
+}
+
+// Restrict returns a view of f in which the edges rejected by infeasible do not exist.
+func (f *Flow) Restrict(infeasible func(b *cfg.Block, i int, cond ast.Expr) bool, edgeTag func(b *cfg.Block, i int, cond ast.Expr) []string) *Flow {
+	g := *f
+	g.infeasible, g.edgeTag, g.reach = infeasible, edgeTag, nil
+	return &g
 }
 
 func isPanicCall(info *types.Info, call *ast.CallExpr) bool {
@@ -194,7 +238,7 @@ func (f *Flow) Solve(spec Spec) *Sol {
 	for iter := 0; iter < 10000; iter++ {
 		changed := false
 		for _, b := range f.G.Blocks {
-			if !b.Live {
+			if !f.live(b) {
 				continue
 			}
 			var in Facts
@@ -206,7 +250,7 @@ func (f *Flow) Solve(spec Spec) *Sol {
 			}
 			first := b != entry
 			for _, p := range preds[b] {
-				if !p.b.Live {
+				if !f.live(p.b) {
 					continue
 				}
 				eo := edgeOut[p.b]
@@ -270,7 +314,13 @@ func (f *Flow) Solve(spec Spec) *Sol {
 			outs := make([]Facts, len(b.Succs))
 			cond := branchCond(b)
 			for i := range b.Succs {
+				if f.infeasible != nil && f.infeasible(b, i, cond) {
+					continue // outs[i] stays nil: the edge does not exist in this view
+				}
 				o := cur.clone()
+				if f.edgeTag != nil {
+					o = apply(o, f.edgeTag(b, i, cond), nil)
+				}
 				if spec.Edge != nil {
 					gen, kill := spec.Edge(b, i, cond, cur)
 					o = apply(o, gen, kill)
@@ -301,7 +351,7 @@ type Exit struct {
 func (f *Flow) Exits() []Exit {
 	var out []Exit
 	for _, b := range f.G.Blocks {
-		if !b.Live || len(b.Succs) != 0 {
+		if !f.live(b) || len(b.Succs) != 0 {
 			continue
 		}
 		e := Exit{Block: b, Pos: f.Body.Rbrace}
@@ -334,7 +384,7 @@ func (s *Sol) AtExit(e Exit) Facts {
 func (f *Flow) Nodes() []ast.Node {
 	var out []ast.Node
 	for _, b := range f.G.Blocks {
-		if b.Live {
+		if f.live(b) {
 			out = append(out, b.Nodes...)
 		}
 	}
@@ -561,6 +611,8 @@ type helperSummary struct {
 	all, onNil, onErr Facts // facts at all normal exits / only at `return nil` exits / only at error exits
 	errResult         bool
 	complete          bool // computed from at least one normal exit (not a recursion guard)
+	boolResult        bool  // the last result is a bool: facts per `return …, true` / `return …, false` exits
+	onTrue, onFalse   Facts
 }
 
 var helperMemo = map[string]*helperSummary{}
@@ -611,6 +663,13 @@ func (f *Flow) summarise(spec Spec, fi *FuncInfo, entry Facts) *helperSummary {
 		}
 		return acc
 	}
+	if !hs.errResult && sig.Results().Len() > 0 {
+		if b, ok := sig.Results().At(sig.Results().Len()-1).Type().Underlying().(*types.Basic); ok && b.Info()&types.IsBoolean != 0 {
+			hs.boolResult = true
+		}
+	}
+	var onTrue, onFalse Facts
+	nTrue, nFalse := 0, 0
 	nAll, nNil, nErr := 0, 0, 0
 	for _, ex := range fl.Exits() {
 		if ex.Panic {
@@ -622,6 +681,21 @@ func (f *Flow) summarise(spec Spec, fi *FuncInfo, entry Facts) *helperSummary {
 		}
 		all = join(all, at, nAll == 0)
 		nAll++
+		if hs.boolResult && ex.Ret != nil && len(ex.Ret.Results) > 0 {
+			switch exprStr(unparen(ex.Ret.Results[len(ex.Ret.Results)-1])) {
+			case "true":
+				onTrue = join(onTrue, at, nTrue == 0)
+				nTrue++
+			case "false":
+				onFalse = join(onFalse, at, nFalse == 0)
+				nFalse++
+			default:
+				onTrue = join(onTrue, at, nTrue == 0)
+				nTrue++
+				onFalse = join(onFalse, at, nFalse == 0)
+				nFalse++
+			}
+		}
 		if hs.errResult && ex.Ret != nil && len(ex.Ret.Results) > 0 {
 			last := ex.Ret.Results[len(ex.Ret.Results)-1]
 			if isNilIdent(fi.Pkg.TypesInfo, last) {
@@ -646,6 +720,7 @@ func (f *Flow) summarise(spec Spec, fi *FuncInfo, entry Facts) *helperSummary {
 		return x
 	}
 	hs.all, hs.onNil, hs.onErr = orEmpty(all), orEmpty(onNil), orEmpty(onErr)
+	hs.onTrue, hs.onFalse = orEmpty(onTrue), orEmpty(onFalse)
 	hs.complete = nAll > 0
 	helperMemo[key] = hs
 	return hs
@@ -664,7 +739,18 @@ func provablyNonNil(info *types.Info, e ast.Expr, at Facts) bool {
 		}
 	}
 	if id, ok := e.(*ast.Ident); ok {
-		return at.Has(id.Name+"=nonnil") || at.Has("nonnil:"+id.Name)
+		if at.Has(id.Name+"=nonnil") || at.Has("nonnil:"+id.Name) {
+			return true
+		}
+		// a sentinel: package-level error variable (the repository never reassigns them)
+		if v, ok := info.Uses[id].(*types.Var); ok && v.Parent() != nil && v.Pkg() != nil && v.Parent() == v.Pkg().Scope() && isErrorType(v.Type()) {
+			return true
+		}
+	}
+	if sel, ok := e.(*ast.SelectorExpr); ok {
+		if v, ok := info.Uses[sel.Sel].(*types.Var); ok && !v.IsField() && v.Pkg() != nil && v.Parent() == v.Pkg().Scope() && isErrorType(v.Type()) {
+			return true
+		}
 	}
 	return false
 }
@@ -715,6 +801,35 @@ func (f *Flow) applyHelpers(spec Spec, n ast.Node, cur Facts) Facts {
 				cur[k] = true
 			}
 		}
+		// bool result: facts per outcome, attached to the edges of the test of the result
+		// (the bound variable, or the call itself when it is the condition)
+		if hs.boolResult && hs.complete {
+			key := fmt.Sprintf("@%d", c.Pos())
+			if as, ok := n.(*ast.AssignStmt); ok && len(as.Rhs) == 1 && unparen(as.Rhs[0]) == ast.Expr(c) {
+				if id, ok := unparen(as.Lhs[len(as.Lhs)-1]).(*ast.Ident); ok && id.Name != "_" {
+					key = id.Name
+				}
+			}
+			for k := range cur {
+				if strings.HasPrefix(k, "ontrue:"+key+"|") || strings.HasPrefix(k, "onfalse:"+key+"|") {
+					delete(cur, k)
+				}
+			}
+			for k := range hs.onTrue {
+				cur["ontrue:"+key+"|"+k] = true
+			}
+			for k := range hs.onFalse {
+				cur["onfalse:"+key+"|"+k] = true
+			}
+			for k := range entry {
+				if !hs.onTrue[k] {
+					cur["ontrue:"+key+"|-"+k] = true
+				}
+				if !hs.onFalse[k] {
+					cur["onfalse:"+key+"|-"+k] = true
+				}
+			}
+		}
 		// error result bound to a variable: remember the edge-specific facts
 		if hs.errResult {
 			if as, ok := n.(*ast.AssignStmt); ok && len(as.Rhs) == 1 && unparen(as.Rhs[0]) == ast.Expr(c) {
@@ -739,6 +854,50 @@ func (f *Flow) applyHelpers(spec Spec, n ast.Node, cur Facts) Facts {
 
 // applyPending turns "onnil:v|F" / "onerr:v|F" into F on the matching edge of a nil test of v.
 func (f *Flow) applyPending(o Facts, cond ast.Expr, i int) Facts {
+	// `v`, `!v`, `helper(…)`, `!helper(…)` for helpers with a bool result
+	{
+		c, neg := unparen(cond), false
+		for {
+			u, isU := c.(*ast.UnaryExpr)
+			if !isU || u.Op != token.NOT {
+				break
+			}
+			c, neg = unparen(u.X), !neg
+		}
+		key := ""
+		switch x := c.(type) {
+		case *ast.Ident:
+			key = x.Name
+		case *ast.CallExpr:
+			key = fmt.Sprintf("@%d", x.Pos())
+		}
+		if key != "" {
+			truth := (i == 0) != neg
+			pfx := "onfalse:" + key + "|"
+			if truth {
+				pfx = "ontrue:" + key + "|"
+			}
+			hit := false
+			for k := range o {
+				if strings.HasPrefix(k, pfx) {
+					hit = true
+					if fact := k[len(pfx):]; strings.HasPrefix(fact, "-") {
+						delete(o, fact[1:])
+					} else {
+						o[fact] = true
+					}
+				}
+			}
+			for k := range o {
+				if strings.HasPrefix(k, "ontrue:"+key+"|") || strings.HasPrefix(k, "onfalse:"+key+"|") {
+					delete(o, k)
+				}
+			}
+			if _, isCall := c.(*ast.CallExpr); isCall || hit {
+				return o
+			}
+		}
+	}
 	be, ok := unparen(cond).(*ast.BinaryExpr)
 	if !ok || (be.Op != token.NEQ && be.Op != token.EQL) {
 		return o
